@@ -140,6 +140,33 @@ def py_to_tree(v, celpy, celtypes):
     return str(v)
 
 
+ERROR_TEXT_MARKERS = ("no such member", "divide by zero", "no such overload", "found no matching overload",
+                      "CELEvalError", "separator may not be empty", "are required to build a reference",
+                      "must contain a value", "Missing `", "index out of bounds", "Encoding error", "Decoding error",
+                      "invalid_argument", "<class '", "planted error", "injected")
+
+
+def error_text_in(v):
+    """a string (key or leaf, JSON text inside strings included) that carries the text of an evaluation error"""
+    if isinstance(v, str):
+        for m in ERROR_TEXT_MARKERS:
+            if m in v:
+                return v[:160]
+        return None
+    if isinstance(v, dict):
+        for k, x in v.items():
+            hit = error_text_in(k) or error_text_in(x)
+            if hit:
+                return hit
+        return None
+    if isinstance(v, (list, tuple)):
+        for x in v:
+            hit = error_text_in(x)
+            if hit:
+                return hit
+    return None
+
+
 def py_has_err(v) -> bool:
     """an exception object anywhere in a Python value (keys included)"""
     if isinstance(v, BaseException):
@@ -157,6 +184,7 @@ class Recorder:
     """wraps celpy.InterpretedRunner.evaluate: records (site, answer) and can replace the answer at one site"""
 
     current = None
+    errors_created = 0
 
     def __init__(self):
         import celpy
@@ -168,6 +196,16 @@ class Recorder:
         if not getattr(cls, "_verif_c10", False):
             orig = cls.evaluate
             rec_cls = Recorder
+            # every failing sub-expression makes celpy (or a koreo custom function) construct a CELEvalError:
+            # counting constructions during one evaluation tells whether *something* failed inside it, even
+            # if a function further out swallowed the error object (third-party class, patched from here)
+            err_init = celpy.CELEvalError.__init__
+
+            def counting_init(self_, *a, **kw):
+                rec_cls.errors_created += 1
+                return err_init(self_, *a, **kw)
+
+            celpy.CELEvalError.__init__ = counting_init
 
             def evaluate(runner, *a, **kw):
                 rec = rec_cls.current
@@ -182,12 +220,16 @@ class Recorder:
                         raise payload
                     rec.events.append([name, {"v": py_to_tree(payload, celpy, celtypes)}])
                     return payload
+                before = rec_cls.errors_created
                 try:
                     v = orig(runner, *a, **kw)
                 except BaseException:
                     rec.events.append([name, "raised"])
                     raise
+                created = rec_cls.errors_created - before
                 rec.events.append([name, {"v": py_to_tree(v, celpy, celtypes)}])
+                if created:
+                    rec.failed_inside[len(rec.events) - 1] = created
                 return v
 
             cls.evaluate = evaluate
@@ -198,6 +240,7 @@ class Recorder:
         self.sites = sites            # id(runner) -> (name, scope, is_first_site_of_scope)
         self.inject = inject          # site name -> ("raise", exc) | ("value", py)
         self.events = []
+        self.failed_inside = {}       # event index -> CELEvalError objects constructed during that evaluation
         self.iter_count = {}          # scope -> iterations started
         self.active = False
 
@@ -300,13 +343,59 @@ def rf_sites(fn, structure, scope, sites):
 # ----------------------------------------------------------------------------- failing sub-expressions and positions
 
 def failing_exprs(root):
-    return {
+    base = {
         "div0": "1/0", "missing": f"{root}.missing", "missing2": f"{root}.missing.deeper", "wrongtype": "size(1)",
         "addmix": '"a" + 1', "index": f"{root}.items[9]", "split": 'split("a", "")', "to_ref": "to_ref({})",
         "self_ref": "self_ref({})", "group_ref": "group_ref({})", "kindless_ref": "kindless_ref({})",
         "b64decode": "b64decode(1)", "from_json": 'from_json("{")', "split_first": 'split_first("a", "")',
         "split_last": 'split_last("a", "")', "split_index": 'split_index("a", "b", 5)',
     }
+    # a failing sub-expression inside (or as) an argument of one of koreo's custom functions, at a place the
+    # function's result depends on: the function must hand the failure on, not swallow or stringify it
+    m = f"{root}.missing"
+    d = "1/0"
+    base.update({
+        "in:to_json(arg)": f"to_json({m})",
+        "in:to_json(map)": f'to_json({{"name": "n", "replicas": {m}.replicas}})',
+        "in:to_json(list)": f"to_json([1, {d}])",
+        "in:to_json(deep)": f'to_json({{"k": [{{"j": {d}}}]}})',
+        "in:overlay(resource)": f'overlay({{"k": {m}}}, {{"b": 1}})',
+        "in:overlay(overlay)": f'overlay({{"a": 1}}, {{"k": {d}}})',
+        "in:overlay(nested)": f'overlay({{"k": {{"a": 1}}}}, {{"k": {{"j": {m}}}}})',
+        "in:overlay(arg)": f"overlay({m}, {{}})",
+        "in:flatten(item)": f"flatten([[1], [{d}]])",
+        "in:flatten(list)": f"flatten([[1], {m}])",
+        "in:flatten(arg)": f"flatten({m})",
+        "in:lower": f"lower({m})",
+        "in:strip": f'strip({m}, "a")', "in:strip(on)": f'strip("a", {d})',
+        "in:rstrip": f'rstrip({m}, "a")',
+        "in:split": f'split({m}, ",")', "in:split(on)": f'split("a,b", {d})',
+        "in:split_first": f'split_first({m}, ",")', "in:split_last": f'split_last({m}, ",")',
+        "in:split_index": f'split_index({m}, ",", 0)', "in:split_index(idx)": f'split_index("a,b", ",", {d})',
+        "in:replace": f'replace({m}, "a", "b")', "in:replace(old)": f'replace("abc", {d}, "b")',
+        "in:replace(new)": f'replace("abc", "a", {m})',
+        "in:b64encode": f"b64encode({m})", "in:b64decode": f"b64decode({m})", "in:from_json": f"from_json({m})",
+        "in:to_ref(name)": f'to_ref({{"name": {m}, "apiVersion": "v1", "kind": "K"}})',
+        "in:to_ref(namespace)": f'to_ref({{"name": "n", "namespace": {d}}})',
+        "in:to_ref(apiVersion)": f'to_ref({{"name": "n", "apiVersion": {d}}})',
+        "in:to_ref(kind)": f'to_ref({{"name": "n", "kind": {m}}})',
+        "in:to_ref(external)": f'to_ref({{"external": {d}}})',
+        "in:to_ref(arg)": f"to_ref({m})",
+        "in:group_ref(name)": f'group_ref({{"name": {m}, "apiVersion": "g/v1", "kind": "K"}})',
+        "in:group_ref(apiGroup)": f'group_ref({{"name": "n", "apiGroup": {d}}})',
+        "in:group_ref(kind)": f'group_ref({{"name": "n", "apiGroup": "g", "kind": {m}}})',
+        "in:kindless_ref(name)": f'kindless_ref({{"name": {m}}})',
+        "in:kindless_ref(namespace)": f'kindless_ref({{"name": "n", "namespace": {d}}})',
+        "in:self_ref(name)": f'self_ref({{"apiVersion": "v1", "kind": "K", "metadata": {{"name": {d}, "namespace": "ns"}}}})',
+        "in:self_ref(apiVersion)": f'self_ref({{"apiVersion": {m}, "kind": "K", "metadata": {{"name": "n", "namespace": "ns"}}}})',
+        "in:self_ref(metadata)": f'self_ref({{"apiVersion": "v1", "kind": "K", "metadata": {d}}})',
+        "in:config_connect_ready(arg)": f"config_connect_ready({m})",
+        "in:config_connect_ready(status)": f'config_connect_ready({{"status": {d}}})',
+        "in:config_connect_ready(conditions)": f'config_connect_ready({{"status": {{"conditions": {m}}}}})',
+        "in:config_connect_ready(condition)": f'config_connect_ready({{"status": {{"conditions": [{d}]}}}})',
+        "in:method": f'{{"k": {d}}}.to_json()',
+    })
+    return base
 
 
 MAP_POSITIONS = {
@@ -655,10 +744,12 @@ class Impl:
         else:
             v = o.data if isinstance(o, self.result.Ok) else o
             d["err"] = py_has_err(v)
+            d["errtext"] = error_text_in(v)
         return d
 
     def requests(self, cluster):
-        return [{"method": e["method"], "name": e["name"], "err": py_has_err(e["body"])} for e in cluster.mutations()]
+        return [{"method": e["method"], "name": e["name"], "err": py_has_err(e["body"]),
+                 "errtext": error_text_in(e["body"])} for e in cluster.mutations()]
 
     # -- ValueFunction
     def run_vf(self, case):
@@ -683,6 +774,7 @@ class Impl:
             finally:
                 self.rec.active = False
             obs["events"] = self.rec.events
+            obs["failed_inside"] = {str(i): n for i, n in self.rec.failed_inside.items()}
             return obs
 
         return ku.run(go())
@@ -737,6 +829,7 @@ class Impl:
             finally:
                 self.rec.active = False
             obs["events"] = self.rec.events
+            obs["failed_inside"] = {str(i): n for i, n in self.rec.failed_inside.items()}
             obs["requests"] = self.requests(cl)
             return obs
 
@@ -820,6 +913,7 @@ class Impl:
                 res = await reconcile_workflow(cl, "wf", ("ns", dict(ku.OWNER_REF)), self.celpy.json_to_cel(INPUTS), wf)
                 obs["outcome"] = self.outcome(res.result)
                 obs["state_err"] = py_has_err(res.state)
+                obs["state_errtext"] = error_text_in(res.state)
                 obs["state_keys"] = sorted(str(k) for k in res.state.keys())
                 obs["state_errors"] = {str(k): str(v) for k, v in res.state_errors.items()}
                 obs["conditions"] = [{"type": c.get("type"), "reason": c.get("reason"), "location": c.get("location"),
@@ -829,6 +923,7 @@ class Impl:
             finally:
                 self.rec.active = False
             obs["events"] = self.rec.events
+            obs["failed_inside"] = {str(i): n for i, n in self.rec.failed_inside.items()}
             obs["requests"] = self.requests(cl)
             return obs
 
@@ -862,12 +957,23 @@ def complaints(case, obs):
     if "escaped" in obs:
         return f"an exception escaped the reconcile call: {obs['escaped']}"
     bad = [(n, a) for n, a in obs["events"] if is_bad(a)]
+    for i, created in obs.get("failed_inside", {}).items():
+        name, answer = obs["events"][int(i)]
+        if not is_bad(answer):
+            return (f"a sub-expression failed to evaluate inside {name} ({created} error object(s) constructed) but the "
+                    f"value of the expression carries no error: the failure was swallowed (value {json.dumps(answer)[:200]})")
     for req in obs.get("requests", []):
         if req["err"]:
             return f"a {req['method']} body contains an error object"
+        if req.get("errtext"):
+            return f"a {req['method']} body contains the text of an evaluation error in place of data: {req['errtext']!r}"
     out = obs["outcome"]
     if out["c"] == "ok" and out.get("err"):
         return "the returned value contains an error object"
+    if out["c"] == "ok" and out.get("errtext"):
+        return f"the returned value contains the text of an evaluation error in place of data: {out['errtext']!r}"
+    if obs.get("state_errtext"):
+        return f"the published state contains the text of an evaluation error in place of data: {obs['state_errtext']!r}"
     if case["kind"] in ("vf", "rf"):
         if bad:
             if out["c"] != "permFail":
@@ -1129,6 +1235,28 @@ def run(tier: str) -> int:
     Impl.shared = impl
     drv = LeanDriver("C10")
 
+    # F10 (fixes/F10-tree-dump-in-handler.diff): on an unrepaired tree celpy's tree_dump raises inside the
+    # `except CELEvalError` arm for a tree that contains `{}`; failing inputs of exactly that class are attributed
+    # to the finding (only if KNOWN_FINDINGS.txt lists it — otherwise they stay violations)
+    ck.classifiers["tree-dump-in-handler"] = lambda c: "pop from empty list" in json.dumps(
+        [c.get("escaped"), c.get("outcome")], default=str)
+
+    # ---- corpus: minimised past failures first
+    from common import VERIF
+    for f in sorted((VERIF / "corpus" / "C10").glob("*.json")):
+        entry = json.loads(f.read_text())
+        case = entry["case"]
+        ck.evaluated()
+        ck.count("corpus")
+        try:
+            obs = impl.run(case)
+        except Exception as e:
+            obs = {"escaped": f"(prepare) {e!r}", "events": []}
+        what = complaints(case, obs)
+        if what is not None:
+            ck.violate({"case": case, "corpus": f.name, "events": obs.get("events"), "outcome": obs.get("outcome"),
+                        "escaped": obs.get("escaped"), "requests": obs.get("requests")}, what)
+
     # ---- (b) the scan itself
     n_scan = 3000 if tier == "quick" else 60000
     trees = [dedup_keys(gen_tree(r, 0, force_err=(r.random() < 0.5))) for _ in range(n_scan)]
@@ -1224,7 +1352,9 @@ def run(tier: str) -> int:
             continue
         if "error" in ans:
             raise Infra(f"driver rejected a request: {ans['error']}")
-        diff = compare(case, obs, ans)
+        in_finding = any(pred({"escaped": obs.get("escaped"), "outcome": obs.get("outcome")})
+                         for pred in ck.classifiers.values())
+        diff = None if in_finding else compare(case, obs, ans)     # inside a finding's class the oracle alone decides
         if diff is not None:
             ck.disagree({"case": case, "events": obs.get("events"), "outcome": obs.get("outcome")},
                         {k: ans.get(k) for k in ("res", "evals", "outs")}, {"requests": obs.get("requests")}, diff)
